@@ -2,16 +2,17 @@
 # Run every kept seeded change (seeded/<id>/patch.diff) against the check of the property it breaks, each in its own scratch
 # worktree (VERIF_REPO), four at a time, and write seeded/RESULTS.tsv: id, property, outcome, failing obligations.
 # Usage: tools/seed_sweep.sh [ids…]   (no ids: all, RESULTS.tsv rewritten)
-out=/verif/seeded/RESULTS.tsv
-ids="$@"; [ -z "$ids" ] && { ids=$(ls -d /verif/seeded/C*/ | xargs -n1 basename); : > $out; }
+ROOT=$(cd "$(dirname "$0")/.." && pwd)
+out=${SWEEP_OUT:-$ROOT/seeded/RESULTS.tsv}
+ids="$@"; [ -z "$ids" ] && { ids=$(ls -d $ROOT/seeded/C*/ | xargs -n1 basename); : > $out; }
 run_one() {
-  id=$1; d=/verif/seeded/$id; W=/tmp/sw-$id
+  id=$1; d=$ROOT/seeded/$id; W=/tmp/sw-$id
   [ -f $d/patch.diff ] || return
   git -C /repo worktree remove --force $W 2>/dev/null; git -C /repo worktree add -q --detach $W HEAD || return
   prop=$(python3 -c "import json;print(json.load(open('$d/meta.json'))['breaks_property'])")
   (cd $W && git apply $d/patch.diff) || { echo -e "$id\t$prop\tPATCH-DOES-NOT-APPLY\t" >> $out; git -C /repo worktree remove --force $W; return; }
   export VERIF_REPO=$W VERIF_EVIDENCE_DIR=/var/tmp/sw-ev-$id VERIF_REPLAY_DIR=/var/tmp/sw-rp-$id VERIF_JOBS=3 VERIF_WITNESS_TARGET=/var/tmp/witness-target
-  r=$(cd /verif && ./check $prop 2>&1)
+  r=$(cd $ROOT && ./check $prop 2>&1)
   oc=$(echo "$r" | grep -oE "^(HELD|VIOLATION|UNDECIDED)" | tail -1)
   obs=$(echo "$r" | grep -oE "failed obligation [^ ]+" | sed 's/failed obligation //' | sort -u | tr '\n' ' ')
   wit=$(echo "$r" | grep -oE "concrete failing input found by [a-z_]+" | head -1)
@@ -19,7 +20,7 @@ run_one() {
   echo -e "$id\t$prop\t$oc\t$obs$wit$und" >> $out
   git -C /repo worktree remove --force $W; rm -rf /var/tmp/sw-ev-$id /var/tmp/sw-rp-$id
 }
-export -f run_one; export out
-echo $ids | tr ' ' '\n' | xargs -P 4 -I{} bash -c 'run_one {}'
+export -f run_one; export out ROOT
+echo $ids | tr ' ' '\n' | xargs -P ${SWEEP_PAR:-4} -I{} bash -c 'run_one {}'
 sort -o $out $out
 echo SWEEPDONE >> $out
